@@ -62,6 +62,13 @@ pub fn run_scenario(sc: &MScenario, replay: Option<Vec<Decision>>, trace: bool) 
     match build_pool(&sc.pool) {
         Built::Pool(p) => {
             with_w(|w| w.pool = Some(p));
+            if (sc.pool.wait.is_some() || sc.pool.create.is_some() || sc.pool.recycle.is_some()) && !sc.pool.runtime {
+                violation = Some(engine::violation(
+                    "C10",
+                    "build_error_missing",
+                    "build() succeeded although pool-level timeouts are configured without a runtime".into(),
+                ));
+            }
             let mut h = MHandle;
             for i in 0..sc.actors.len() {
                 let body = h.actor_body(i);
@@ -91,6 +98,7 @@ pub fn run_scenario(sc: &MScenario, replay: Option<Vec<Decision>>, trace: bool) 
             }
         }
         Built::NoRuntime => {
+            with_w(|w| w.cnt.probe("build_reports_no_runtime"));
             let expected = (sc.pool.wait.is_some() || sc.pool.create.is_some() || sc.pool.recycle.is_some())
                 && !sc.pool.runtime;
             if !expected {
@@ -116,7 +124,12 @@ pub fn run_scenario(sc: &MScenario, replay: Option<Vec<Decision>>, trace: bool) 
         }
         v
     });
-    let _ = std::panic::catch_unwind(std::panic::AssertUnwindSafe(move || drop(leftovers)));
+    // one by one: a panicking drop must not meet a second one while unwinding (that would abort)
+    for obj in leftovers {
+        if std::panic::catch_unwind(std::panic::AssertUnwindSafe(move || drop(obj))).is_err() {
+            with_w(|w| w.cnt.probe("teardown_drop_panicked"));
+        }
+    }
     let pool = with_w(|w| w.pool.take());
     let _ = std::panic::catch_unwind(std::panic::AssertUnwindSafe(move || drop(pool)));
     let w = remove_world().expect("world");
